@@ -11,6 +11,18 @@ use std::collections::HashMap;
 
 pub struct MacroArea;
 
+/// true = every metric registered by the process's first 16 concurrent `register_int_counter!` calls (no registry argument) is gathered
+pub fn first_use_race() -> bool {
+    let n = 16; let go = std::sync::Arc::new(std::sync::atomic::AtomicUsize::new(0));
+    let hs: Vec<_> = (0..n).map(|i| { let go = go.clone(); std::thread::spawn(move || {
+        go.fetch_add(1, std::sync::atomic::Ordering::SeqCst); while go.load(std::sync::atomic::Ordering::SeqCst) < n { std::hint::spin_loop(); }
+        let name = format!("pv_first_use_{}", i);
+        register_int_counter!(name.clone(), "first use").map(|c| { c.inc(); name }).ok() }) }).collect();
+    let names: Vec<Option<String>> = hs.into_iter().map(|h| h.join().unwrap()).collect();
+    let seen: Vec<String> = prometheus::gather().iter().map(|f| f.name().to_string()).collect();
+    names.iter().all(|x| x.as_ref().map(|nm| seen.contains(nm)).unwrap_or(false))
+}
+
 pub struct Args { pub name: String, pub help: String, pub c1: Vec<(String, String)>, pub c2: Vec<(String, String)>, pub lnames_v: Vec<String>, pub buckets: Vec<f64>, pub reg: Registry, pub ticks: std::cell::Cell<usize> }
 impl Args {
     /// called by every argument expression of a generated call site
@@ -51,19 +63,15 @@ impl Area for MacroArea {
     fn exec(&self, lines: &[String], stats: &mut Stats) -> ExecOut {
         let mut outs = vec![]; let mut fails: Vec<Failure> = vec![];
         // the process's very FIRST uses of the default registry, made by several threads at once: every metric a `register_*!` call without
-        // registry returned Ok for must be in prometheus::gather() (a lazily initialised default registry must be initialised exactly once)
+        // registry returned Ok for must be in prometheus::gather() (a lazily initialised default registry must be initialised exactly once).
+        // Run once per harness process, in 32 fresh child processes (`pv-harness firstuse`), because only a process's first use can race.
         static FIRST_USE: std::sync::Once = std::sync::Once::new();
         FIRST_USE.call_once(|| {
-            let n = 16; let go = std::sync::Arc::new(std::sync::atomic::AtomicUsize::new(0));
-            let hs: Vec<_> = (0..n).map(|i| { let go = go.clone(); std::thread::spawn(move || {
-                go.fetch_add(1, std::sync::atomic::Ordering::SeqCst); while go.load(std::sync::atomic::Ordering::SeqCst) < n { std::hint::spin_loop(); }
-                let name = format!("pv_first_use_{}", i);
-                register_int_counter!(name.clone(), "first use").map(|c| { c.inc(); name }).ok() }) }).collect();
-            let names: Vec<Option<String>> = hs.into_iter().map(|h| h.join().unwrap()).collect();
-            let seen: Vec<String> = prometheus::gather().iter().map(|f| f.name().to_string()).collect();
-            let lost: Vec<&String> = names.iter().flatten().filter(|nm| !seen.contains(nm)).collect();
-            stats.hit("default-registry-first-use-race-checked");
-            if !lost.is_empty() || names.iter().any(|x| x.is_none()) { fails.push(Failure { class: "registered-in-wrong-registry".into(), detail: format!("{} of {} metrics registered without a registry argument by the first {} concurrent calls of the process are not in prometheus::gather() (or the call was refused): {:?}", lost.len(), n, n, lost) }); }
+            if let Ok(exe) = std::env::current_exe() {
+                let bad = (0..32).filter(|_| std::process::Command::new(&exe).arg("firstuse").status().map(|st| st.code() == Some(3)).unwrap_or(false)).count();
+                stats.hit("default-registry-first-use-race-checked");
+                if bad > 0 { fails.push(Failure { class: "registered-in-wrong-registry".into(), detail: format!("in {} of 32 fresh processes, metrics registered without a registry argument by the first 16 concurrent calls of the process were not in prometheus::gather() afterwards", bad) }); }
+            }
         });
         for line in lines {
             let p: Vec<&str> = line.split(' ').collect();
